@@ -265,19 +265,43 @@ where
                 acc.violate(format!("clamp:{}", tname), format!("RealField::clamp on {} ({:e} in [{:e},{:e}]): real part {:e}, float gives {:e}", tname, a0, b0, c0, g, w), case());
             }
         }
-        // approximate equality: real parts only
-        let eps_f: T::F = f_of::<T>(1e-6);
-        let eps_d: T = build_with(&shape, &perturbed(&mut rng, &b, 1e-6f32 as f64, T::IS_F32), &mut AllPresent);
-        let eps_d = if T::IS_F32 { eps_d } else { build_with(&shape, &perturbed(&mut rng, &b, 1e-6, false), &mut AllPresent) };
-        acc.observe(&format!("approx|{}", tname), true);
-        let g = (a.abs_diff_eq(&bb, eps_d.clone()), a.relative_eq(&bb, T::default_epsilon(), T::default_max_relative()), a.ulps_eq(&bb, T::default_epsilon(), 4));
-        let w = (
-            fa.abs_diff_eq(&fb, eps_f),
-            fa.relative_eq(&fb, <T::F as AbsDiffEq>::default_epsilon(), <T::F as RelativeEq>::default_max_relative()),
-            fa.ulps_eq(&fb, <T::F as AbsDiffEq>::default_epsilon(), 4),
-        );
-        if g != w {
-            acc.violate(format!("approx:{}", tname), format!("abs_diff_eq/relative_eq/ulps_eq on {} with real parts {:e}, {:e}: {:?} but floats give {:?}", tname, a0, b0, g, w), case());
+        // approximate equality: real parts only; epsilon and max_relative differ so that a swapped
+        // or dropped tolerance changes the answer
+        {
+            let base = *rng.choose(&[0.0, 1.0, -2.5, 1e-30, 1e30, 0.1]);
+            let delta = *rng.choose(&[0.0, 1e-9, 5e-4, 1e-2, 3e-7]) * rng.sign();
+            let p0 = base as f32 as f64;
+            let q0 = if base.abs() >= 1.0 { base * (1.0 + delta) } else { base + delta };
+            let q0 = q0 as f32 as f64;
+            let e1 = *rng.choose(&[1e-3f64, 1e-6, 1e-9, 1e-1]) as f32 as f64;
+            let e2 = *rng.choose(&[1e-3f64, 1e-6, 1e-9, 1e-1]) as f32 as f64;
+            let pa: T = build_with(&shape, &perturbed(&mut rng, &b, p0, T::IS_F32), &mut MaskAbsent::new(rng.next_u64()));
+            let qa: T = build_with(&shape, &perturbed(&mut rng, &b, q0, T::IS_F32), &mut MaskAbsent::new(rng.next_u64()));
+            let eps_d: T = build_with(&shape, &perturbed(&mut rng, &b, e1, T::IS_F32), &mut AllPresent);
+            let rel_d: T = build_with(&shape, &perturbed(&mut rng, &b, e2, T::IS_F32), &mut MaskAbsent::new(rng.next_u64()));
+            let (pf, qf, e1f, e2f): (T::F, T::F, T::F, T::F) = (f_of::<T>(p0), f_of::<T>(q0), f_of::<T>(e1), f_of::<T>(e2));
+            acc.observe(&format!("approx|{}|{}", tname, if e1 == e2 { "equal-tolerances" } else { "distinct-tolerances" }), true);
+            let g = (
+                pa.abs_diff_eq(&qa, eps_d.clone()),
+                pa.relative_eq(&qa, eps_d.clone(), rel_d.clone()),
+                pa.ulps_eq(&qa, eps_d.clone(), 4),
+                pa.relative_eq(&qa, T::default_epsilon(), T::default_max_relative()),
+                parts(&T::default_epsilon(), &shape)[0],
+                parts(&T::default_max_relative(), &shape)[0],
+                T::default_max_ulps(),
+            );
+            let w = (
+                pf.abs_diff_eq(&qf, e1f),
+                pf.relative_eq(&qf, e1f, e2f),
+                pf.ulps_eq(&qf, e1f, 4),
+                pf.relative_eq(&qf, <T::F as AbsDiffEq>::default_epsilon(), <T::F as RelativeEq>::default_max_relative()),
+                { let v: f64 = <T::F as AbsDiffEq>::default_epsilon().into(); v },
+                { let v: f64 = <T::F as RelativeEq>::default_max_relative().into(); v },
+                <T::F as UlpsEq>::default_max_ulps(),
+            );
+            if g != w {
+                acc.violate(format!("approx:{}", tname), format!("abs_diff_eq/relative_eq/ulps_eq/defaults on {} with real parts {:e}, {:e}, epsilon {:e}, max_relative {:e}: {:?} but floats give {:?}", tname, p0, q0, e1, e2, g, w), json!({"type": tname, "a_re": p0, "b_re": q0, "epsilon": e1, "max_relative": e2}));
+            }
         }
     }
     acc
